@@ -210,7 +210,13 @@ var tcRegions = []string{"us", "eu"}
 // pred builds one non-time predicate over host / region / n / x.
 func (c *tcCtx) pred() *tcNode {
 	rg := c.rg
-	switch rg.Intn(8) {
+	switch rg.Intn(10) {
+	case 8, 9:
+		// a comparison of constants: always true or always false, whatever the point
+		k := rg.Intn(10)
+		text := []string{"1 = 1", "'all' = 'all'", "2 > 1", "1.5 < 2", "true", "1 = 2", "'a' != 'a'", "2 < 1", "false", "3 >= 3"}[k]
+		val := []bool{true, true, true, true, true, false, false, false, false, true}[k]
+		return &tcNode{op: "pred", text: text, pred: func(p tcPoint) bool { return val }}
 	case 0:
 		v := tcHosts[rg.Intn(2)]
 		return &tcNode{op: "pred", text: "host = '" + v + "'", pred: func(p tcPoint) bool { return p.host == v }}
